@@ -6,6 +6,18 @@ NOTES = ('All checks are ./check <id>; each rebuilds a source-only overlay from 
 NOT_CLAIMED = {}
 
 PROPS = {
+    'C14': {
+        'modules': ['contracts.C14_readers'],
+        'level': 'proof',
+        'level_text': 'Both buffered readers against a flat cursor over the whole byte string: representation invariant + effect on the abstract view '
+                      'V = buffered ++ rest-of-source assumed at entry and proved at exit of every method (sync: __init__, _perform_read, _fill_buffer, peek, '
+                      '_normalize_size, _read, read, _read_until, _finalize_read_until, read_until, pipe, pipe_until, exhaust, readline, readlines, delimit; '
+                      'async: the non-generator methods and, through a per-yield view clause, the generators and their consumers), with loop invariants, for '
+                      'all data, chunkings, chunk sizes, delimiters and sizes.',
+        'level_note': 'Bytes are modelled as windows of one prophecy string (index arithmetic; every concatenation carries a no-gap/no-overlap obligation); '
+                      'find is an uninterpreted first-occurrence function with ground axiom instances. The composition of suspended async generators and '
+                      'nested delimit() sub-readers are covered only by the labelled bounded differential; cyutil/reader.pyx is out of reach.',
+    },
     'C13': {
         'modules': ['contracts.C13_multipart'],
         'level': 'proof',
